@@ -31,14 +31,15 @@ Proof.
               rd_commit st' = fold_left (fun acc r => match r with RState c => c | _ => acc end) R (rd_commit st)).
   { induction R as [|r R IH]; intros st st' F; cbn [fold_left] in F.
     - injection F as <-. reflexivity.
-    - destruct r as [x|c|m].
+    - destruct r as [x|c|m|v h m].
       + rewrite read_step_ent in F. destruct (i <? x).
         * destruct (Nat.ltb (length (rd_ents st)) (N.to_nat (x - i - 1))).
           -- exfalso. clear - F. induction R; cbn [fold_left] in F; [discriminate | auto].
           -- apply IH in F. simpl in *. exact F.
         * apply IH in F. exact F.
       + rewrite read_step_state in F. apply IH in F. simpl in *. exact F.
-      + rewrite read_step_snap in F. destruct (m =? i); apply IH in F; simpl in *; exact F. }
+      + rewrite read_step_snap in F. destruct (m =? i); apply IH in F; simpl in *; exact F.
+      + rewrite read_step_snapin in F. destruct (m =? i); apply IH in F; simpl in *; exact F. }
   destruct (fold_left (read_step i) (all_recs (skipn p ss)) (Ok (mkReadst [] 0 false))) as [st'|] eqn:F; [|discriminate].
   destruct (rd_match st'); [|discriminate]. injection H as _ <-.
   rewrite (G _ _ _ F). reflexivity.
@@ -65,7 +66,7 @@ Proof.
 Qed.
 
 (* the restart of a well-shaped world (only the newest marker needs to be valid) *)
-Lemma recover_chain2 : forall ss lo hi sf cks m,
+Lemma recover_chain2 : forall ss lo hi sf cks m, local_recs (all_recs ss) ->
   seg_chain lo ss hi -> lo = lo_of ss ->
   In m (markers (all_recs ss)) -> (forall i, In i (markers (all_recs ss)) -> i <= m) ->
   m <= last_commit (all_recs ss) ->
@@ -74,11 +75,11 @@ Lemma recover_chain2 : forall ss lo hi sf cks m,
   (0 < m -> In m sf /\ lookup m cks = Some (range 0 m)) ->
   recover ss sf cks = Ok (range 0 hi).
 Proof.
-  intros ss lo hi sf cks m C Hlo Hm Hmax Hvalid Hfirst H0 Hfile.
+  intros ss lo hi sf cks m HL C Hlo Hm Hmax Hvalid Hfirst H0 Hfile.
   assert (Llo : lo <= m). { subst lo. unfold lo_of. lia. }
   assert (Lmh : m <= hi) by (eapply seg_chain_markers; eauto).
   unfold recover. rewrite (choose_newest ss sf m Hm Hmax Hvalid H0 (fun h => proj1 (Hfile h))).
-  destruct (read_all_chain _ _ _ m C Llo Hfirst Hm) as [cm R].
+  destruct (read_all_chain _ _ _ m HL C Llo Hfirst Hm) as [cm R].
   destruct (0 <? m) eqn:Q.
   - destruct (Hfile ltac:(lia)) as [_ Hck]. rewrite Hck, R. f_equal. symmetry. apply range_app; lia.
   - assert (m = 0) by lia. subst m. rewrite R. reflexivity.
